@@ -13,7 +13,7 @@ fn tgkill(pid: i32, tid: i32, sig: i32) -> bool {
 }
 
 pub fn generate(seed: u64, tier: &str, out: &mut dyn std::io::Write) {
-    let n = if tier == "thorough" { 300 } else { 48 };
+    let n = if tier == "thorough" { 300 } else { 72 };
     let rtsig = libc::SIGRTMIN() + 1;
     for i in 0..n {
         let mut r = Rng::for_case(seed, 3, i);
